@@ -379,6 +379,18 @@ func runC20(c *Ctx) {
 					}
 					return true
 				})
+				// and the function has no other way of writing to a builder at all (an outer-loop fast path that
+				// writes a whole token verbatim skips the table for every byte of it)
+				ast.Inspect(side.f.Body, func(n ast.Node) bool {
+					x, isCall := n.(*ast.CallExpr)
+					if !isCall || within(loop.Body, x) {
+						return true
+					}
+					if name := core.CalleeName(info, x); strings.HasPrefix(name, "strings.Builder.Write") {
+						bad = "write " + core.ExprString(x) + " at " + c.Pos(x) + " outside the loop over the token's bytes"
+					}
+					return true
+				})
 				c.Check("C20-R1", side.f.Key()+" every byte goes through the table", c.Pos(loop), bad == "", bad)
 			}
 		}
